@@ -40,6 +40,30 @@ def generate(rng, tier, shard, nshards):
                         feat=feat + "+wrapped-twice")
         if srn == "Rat" and shape == "acyclic":
             yield event("normalize", dict(base, L=3), site="locally_normalize", feat=feat)
+        if gi % 3 == 0:
+            yield gops.event("normalizerl", {"G": rl_cyclic(rng)}, site="locally_normalize[recursive, proper]",
+                             feat="proper-right-linear-with-nested-cycles", timeout=120)
+
+
+def rl_cyclic(rng):
+    """A proper right-linear grammar with 3-5 states, several arcs per state to random states (nested cycles, chords,
+    parallel tokens) and a stop rule of weight >= 1/4 everywhere: every total weight is exactly one."""
+    n = rng.choice([3, 4, 5])
+    names = [f"#{k}" for k in range(n)]
+    rules = []
+    for X in names:
+        k = rng.choice([1, 2, 3])
+        ws = [rng.choice([[1, 4], [1, 8], [1, 8]]) for _ in range(k)]
+        rest = 8 - sum(8 // w[1] for w in ws)
+        for w in ws:
+            rules.append({"w": w, "h": X, "b": [rng.choice(["a", "b"]), rng.choice(names)]})
+        rules.append({"w": [rest // (2 if rest % 2 == 0 and rest < 8 else 1) if False else rest, 8], "h": X, "b": []})
+    from fractions import Fraction
+    for r in rules:
+        q = Fraction(*r["w"])
+        r["w"] = [q.numerator, q.denominator]
+    rng.shuffle(rules)
+    return {"S": "#0", "V": ["a", "b"], "rules": rules}
 
 
 def chart_events(rng, tier):
